@@ -37,6 +37,7 @@ import Rooc.Proofs.LinSucceed2
 import Rooc.Proofs.LinDExamples3
 import Rooc.Proofs.LinDExamples4
 import Rooc.Proofs.LinTrace2
+import Rooc.Proofs.LinSucceedPW3
 namespace Rooc.Props.C01
 open Rooc Rooc.Lin
 open Rooc.Lin.Gadget (B01 DomMax DomMin)
@@ -991,6 +992,103 @@ example : L1 (simplify (exAffine : Model (Ext K)).objective) ∧
   simp only [exAffine, List.mem_singleton] at hc
   subst hc
   exact ⟨rfl, by simp [simplify, L1], by simp [simplify, L1], by simp [simplify, fsize, flattenFuel]⟩
+
+/-! ### the piecewise-linear fragment: `abs`, `min`, `max` (expression level)
+
+Vocabulary (`Rooc/Proofs/LinNames.lean`, `LinFresh.lean`, `LinSucceedPW.lean`):
+* `gen F i suf` — the auxiliary name of family `F` (`$abs_`, `$min_`, `$max_`, `$and_`, …, `$logic_witness_`), counter
+  `i`, suffix `suf` (none, `_positive`, `_select_j`); `SrcName x` — `x` does not start with `$`.
+* `NamesOK s` — every name in the domain of the state `s` is a `SrcName` or a `gen F i suf` with `i` below the current
+  counter of `F`; `BAgree bm s` — the bounds map of `s` agrees with `bm` on `SrcName`s;
+  `Grow s s'` — counters do not decrease, new names are generated at or above the old counters, bounds of `SrcName`s
+  are untouched.
+* `PW bm e q` — `e` is piecewise-linear (affine shapes, `abs`, `min`, `max`, any nesting; literal factors, non-zero
+  literal divisors) and, wherever the requirement `q` forces a big-M gadget, the bounds `bm` are finite (exactly the
+  condition whose failure is `MissingFiniteBounds`); decidable by recursion on `e`. -/
+
+/-- **the auxiliary names never collide**: (family, counter, suffix) ↦ name is injective. -/
+theorem aux_names_distinct {F F' : Fam} {i i' : Nat} {suf suf' : Suf} (h : gen F i suf = gen F' i' suf') :
+    F = F' ∧ i = i' ∧ suf = suf' := gen_inj h
+
+/-- **fresh-name availability**: in a state whose `$`-names were all generated below the current counters, a name
+generated at or above the current counter of its family is new — `declare_variable` cannot fail on it. -/
+theorem fresh_name_available {s : St (Ext K)} (h : NamesOK s) (F : Fam) {i : Nat} (hi : ctr s F ≤ i) (suf : Suf) :
+    gen F i suf ∉ s.domain.map (·.name) := h.fresh F hi suf
+
+/-- **no spurious error in `Exp::linearize` on the piecewise-linear fragment** (abs / min / max with the
+finite-bounds conditions): from every state whose user names do not start with `$` and whose bounds agree with
+`bm` on them, the lowering succeeds — every auxiliary variable (`$abs_i`, `$abs_i_positive`, `$max_i`,
+`$max_i_select_j`, …) is new at the moment it is declared, pruning leaves at least what `PW` inspected, the
+one-sided and big-M gadgets are emitted — and the step keeps the invariants. -/
+theorem piecewise_linearize_succeeds {bm : BoundsMap (Ext K)} {e : Exp (Ext K)} {q : Req} (h : PW bm e q)
+    (s : St (Ext K)) (hn : NamesOK s) (hb : BAgree bm s) :
+    ∃ c s', linExp e q s = .ok (c, s') ∧ Grow s s' ∧ NamesOK s' ∧ BAgree bm s' := by
+  obtain ⟨c, s', h1, g, _, _⟩ := linExp_PW h s hn hb
+  exact ⟨c, s', h1, g, hn.grow g, hb.grow g⟩
+
+/-- non-vacuity: `|x|` with `x ∈ [−3, 3]` at requirement `exact` needs the big-M gadget and is in the fragment; a
+state with the single user variable `x` satisfies the invariants, so the lowering succeeds. -/
+example : ∃ (bm : BoundsMap (Ext K)) (e : Exp (Ext K)) (s : St (Ext K)) (c : Ctx (Ext K)) (s' : St (Ext K)),
+    PW bm e .exact ∧ NamesOK s ∧ BAgree bm s ∧ linExp e .exact s = .ok (c, s') := by
+  obtain ⟨c, s', h, _, _, _⟩ := linExp_PW exPW_pw exPWState (exPW_names (K := K)) exPW_agree
+  exact ⟨_, _, _, c, s', exPW_pw, exPW_names, exPW_agree, h⟩
+
+/-! ### the piecewise-linear fragment: the loop and the whole pipeline
+
+* `wt e` — number of nodes of `e`; `budget W = 10·W + 60`.
+* `SrcPW bm W c` — `c` is a comparison; both sides normalise to expressions whose top node is arithmetic; their
+  difference normalises to an expression in `PW bm · (requirement of the comparison)` of weight ≤ `W`.  Decidable.
+The two size hypotheses below (`budget W ≤ flattenFuel`, `4·W·(#constraints + 1) + 1 ≤ drainFuel`, both fuels are
+`10⁶`) are about the FUELS OF THE LEAN MODEL (the Rust code recurses / loops without fuel): the accounting shows
+that a context has at most `wt e` entries, that lowering `e` queues at most `4·wt e − 2` rows, each an affine
+comparison of size ≤ `10·wt e + 60`, and that the loop needs one iteration per source constraint plus one per
+queued row. -/
+
+/-- one iteration of the loop on a supported piecewise-linear comparison succeeds (all four verdicts of
+`try_normalize_logic_constraint`), keeps the invariants and queues only small affine rows. -/
+theorem piecewise_process_succeeds {bm : BoundsMap (Ext K)} {W : Nat} (hW : 1 ≤ W) {c : Constraint (Ext K)}
+    (hc : SrcPW bm W c) (s : St (Ext K)) (hn : NamesOK s) (hb : BAgree bm s) :
+    ∃ s', processConstraint c s = .ok ((), s') ∧ Grow s s' ∧ QStep W s s' := by
+  obtain ⟨s', h, g, q⟩ := process_PW hW hc s hn hb
+  exact ⟨s', h, g, q⟩
+
+/-- **no spurious error on piecewise-linear models** (`linearizeWith`): the user's names do not start with `$`;
+objective and constraints are in the fragment relative to the bounds map `b` (exactly: no `NonLinearExpression`,
+`DivisionByZero`, `MissingFiniteBounds` condition is violated); the model fits the fuels.  Then the compilation
+succeeds — no other error is possible: auxiliary names are always new, pruning never leaves an empty `min`/`max`
+the fragment did not see, every queued row is affine and is lowered by the affine theorem. -/
+theorem c01_piecewise_linearizeWith_succeeds {m : Model (Ext K)} (b : BoundsMap (Ext K)) (d : List (DomVar (Ext K)))
+    {W : Nat} (hW : 1 ≤ W) (hB : budget W ≤ flattenFuel) (hnames : ∀ dv ∈ d, SrcName dv.name)
+    (hobj : ∃ o, normalizeExp m.objective = some o ∧ PW b o (objReq m) ∧ wt o ≤ W)
+    (hcons : ∀ c ∈ m.constraints, SrcPW b W c)
+    (hfuel : 4 * W * (m.constraints.length + 1) + 1 ≤ drainFuel) :
+    ∃ lm, linearizeWith m b d = .ok lm :=
+  linearizeWith_succeeds_pw b d hW hB hnames hobj hcons hfuel
+
+/-- **the same through the whole pipeline `Compile.linearize`**, the fragment being taken relative to the bounds
+of the analyzer state `an` the pipeline computes (any tolerance, any step limit). -/
+theorem c01_piecewise_compile_succeeds {m : Model (Ext K)} {tol : Ext K} {maxSteps : Nat} {an : Analyzer (Ext K)}
+    (han : pipelineAnalyzer m tol maxSteps = some an) {W : Nat} (hW : 1 ≤ W) (hB : budget W ≤ flattenFuel)
+    (hnames : ∀ dv ∈ m.domain, SrcName dv.name)
+    (hobj : ∃ o, normalizeExp m.objective = some o ∧ PW (Compile.toLinBounds an.variableBounds) o (objReq m) ∧ wt o ≤ W)
+    (hcons : ∀ c ∈ m.constraints, SrcPW (Compile.toLinBounds an.variableBounds) W c)
+    (hfuel : 4 * W * (m.constraints.length + 1) + 1 ≤ drainFuel) :
+    ∃ lm, Compile.linearize m tol maxSteps = .ok lm :=
+  compile_succeeds_pw han hW hB hnames hobj hcons hfuel
+
+/-- non-vacuity: `min y s.t. |x| ≤ y`, `x ∈ [−1, 2]` satisfies every hypothesis of
+`c01_piecewise_linearizeWith_succeeds` (with `W = 4`), so it compiles BY THE THEOREM. -/
+example : ∃ (m : Model (Ext K)) (b : BoundsMap (Ext K)) (W : Nat), 1 ≤ W ∧ budget W ≤ flattenFuel ∧
+    (∀ dv ∈ m.domain, SrcName dv.name) ∧
+    (∃ o, normalizeExp m.objective = some o ∧ PW b o (objReq m) ∧ wt o ≤ W) ∧
+    (∀ c ∈ m.constraints, SrcPW b W c) ∧ 4 * W * (m.constraints.length + 1) + 1 ≤ drainFuel := by
+  refine ⟨exAbs, exAbsBounds, 4, by norm_num, by simp [budget, flattenFuel], ?_,
+    ⟨.var "y", exAbs_norm_var "y", PW.var _ _, by simp [wt]⟩, exAbs_srcPW, by simp [exAbs, drainFuel]⟩
+  intro dv hdv
+  simp only [exAbs, List.mem_cons, List.mem_nil_iff, or_false] at hdv
+  rcases hdv with rfl | rfl
+  · exact srcName_x
+  · exact srcName_y
 
 end Success
 
